@@ -2380,7 +2380,8 @@ class Kconfig(object):
                     continue
 
                 name, val = match.groups()
-                if name in self.syms:
+                # (An option that expressions still refer to stays in self.syms after its definition is gone.)
+                if name in self.syms and self.syms[name].nodes:
                     sym = self.syms[name]
 
                     if sym.orig_type is STRING:
